@@ -28,10 +28,16 @@ type s3Sim struct {
 	log     []string
 	uploads map[string]map[int][]byte // multipart: upload id -> part number -> bytes
 	nextUp  int
+	// holdKind/holdAt: the k-th request of that kind ("LIST" or "DELETE") waits until release is closed
+	holdKind string
+	holdAt   int
+	seenKind map[string]int
+	held     chan struct{}
+	release  chan struct{}
 }
 
 func newS3Sim() (*s3Sim, error) {
-	s := &s3Sim{objects: map[string][]byte{}, uploads: map[string]map[int][]byte{}}
+	s := &s3Sim{objects: map[string][]byte{}, uploads: map[string]map[int][]byte{}, seenKind: map[string]int{}, held: make(chan struct{}), release: make(chan struct{})}
 	ln, err := net.Listen("tcp", "127.0.0.1:0")
 	if err != nil {
 		return nil, err
@@ -70,7 +76,20 @@ func (s *s3Sim) ServeHTTP(w http.ResponseWriter, r *http.Request) {
 	}
 	s.mu.Lock()
 	s.log = append(s.log, r.Method+" "+key)
+	kind := ""
+	switch {
+	case key == "" && r.Method == "GET":
+		kind = "LIST"
+	case r.Method == "DELETE":
+		kind = "DELETE"
+	}
+	s.seenKind[kind]++
+	hold := kind != "" && kind == s.holdKind && s.seenKind[kind] == s.holdAt
 	s.mu.Unlock()
+	if hold {
+		close(s.held)
+		<-s.release
+	}
 	notFound := func() {
 		w.Header().Set("Content-Type", "application/xml")
 		w.WriteHeader(404)
